@@ -5,9 +5,9 @@ CONSTANT NY = 2
 CONSTANT Vals = {0, 1}
 CONSTANT VarSet = {1, 2, 6}
 CONSTANT BG = 1
-CONSTANT TNs = {8}
+CONSTANT TNs = {4}
 CONSTANT TD = 8
-CONSTANT TailSet = {"left", "right", "both"}
+CONSTANT TailSet = {"both"}
 CONSTANT Paired = FALSE
 CONSTANT K = 2
 CONSTANT KeepDraws = FALSE
